@@ -26,6 +26,7 @@ For WHICH documents: `WF d` — the documents the constructors and the parser le
 No bound on sizes, nesting depth or values; metadata, ids, confidences are arbitrary values.
 -/
 import PagexmlModel.Lemmas.C06
+import PagexmlModel.Lemmas.C06Parsed
 
 namespace Pagexml.C06
 
@@ -229,5 +230,221 @@ example : fromJson 5 ((Doc.scan s1).toJson strKey) = .ok (some (.scan s1)) :=
 
 /-- a regions-out-of-order scan is *not* well-formed: the constructor would have sorted it -/
 example : ¬ WF (.scan { s1 with regions := [r1, r0] }) := by decide
+
+
+/-! ## Encodability and JSON text normalisation
+
+`JV d` ("JSON-valued", `Doc.jv`, decidable, evaluated by the driver on every generated and every
+rebuilt document): every attribute of `d` that carries an arbitrary Python value — ids, metadata,
+confidences, reading-order targets and attributes, spans, header, corner points, orientation,
+x-height — holds a value JSON text carries unchanged (`PyVal.stable`: no foreign object, all dict
+keys strings; tuples and lists are identified, floats are opaque `repr` literals).  That is what
+documents parsed from XML hold, and what every document rebuilt from decoded JSON text holds
+(`C06_jv_closed`).  User metadata with a set or an int-keyed dict is outside: `json.dumps` rejects
+the former and rewrites the keys of the latter. -/
+
+/-- JSON-valued: every carried Python value survives JSON text unchanged -/
+def JV (d : Doc) : Prop := d.jv = true
+
+instance (d : Doc) : Decidable (JV d) := inferInstanceAs (Decidable (d.jv = true))
+
+/-- **C06_encodable.**  The JSON view of a JSON-valued document of any class holds only what the
+    standard encoder accepts (no foreign objects; keys are `str` or `int` by construction), in
+    whichever way reading-order indexes are written. -/
+theorem C06_encodable (kf : Int → Key) (d : Doc) (hj : JV d) : (d.toJson kf).encodable = true :=
+  Doc.enc kf d hj
+
+/-- **C06_norm.**  `json.loads ∘ json.dumps` (`norm`: int keys become their decimal strings) maps
+    the dictionary view onto the string-route view. -/
+theorem C06_norm (d : Doc) (hj : JV d) : (d.toJson Key.i).norm = d.toJson strKey :=
+  Doc.norm_toJson d hj
+
+/-- the string-route view is a fixpoint of JSON text: decoding its encoding gives it back -/
+theorem C06_str_view_stable (d : Doc) (hj : JV d) : (d.toJson strKey).stable = true := by
+  rw [← C06_norm d hj]
+  exact norm_stable _ (C06_encodable Key.i d hj)
+
+/-- **the string entry point, through the text**: rebuilding from `json.loads(json.dumps(doc.json))`
+    gives the document back, and so does rebuilding from the dictionary; the two rebuilt documents
+    have the same JSON view, which after normalisation is the normalised view of the original. -/
+theorem C06_text_trip (d : Doc) (fuel : Nat) (hf : d.depth ≤ fuel) (hd : WF d) (hj : JV d) :
+    fromJson fuel (d.toJson Key.i).norm = .ok (some d) ∧
+    fromJson fuel (d.toJson Key.i) = .ok (some d) ∧
+    ∀ d', fromJson fuel (d.toJson Key.i).norm = .ok (some d') → (d'.toJson Key.i).norm = (d.toJson Key.i).norm := by
+  rw [C06_norm d hj]
+  refine ⟨C06_roundtrip strKey keyInt_strKey d fuel hf hd, C06_roundtrip_dict d fuel hf hd, ?_⟩
+  intro d' h
+  rw [C06_roundtrip strKey keyInt_strKey d fuel hf hd] at h
+  cases h; exact C06_norm d hj
+
+example : JV (.scan s1) := by decide
+example : ((Doc.scan s1).toJson Key.i).encodable = true := C06_encodable _ _ (by decide)
+example : ((Doc.scan s1).toJson Key.i).norm = (Doc.scan s1).toJson strKey := C06_norm _ (by decide)
+example : ((Doc.scan s1).toJson strKey).stable = true := C06_str_view_stable _ (by decide)
+example : fromJson 2 ((Doc.scan s1).toJson Key.i).norm = .ok (some (.scan s1)) :=
+  (C06_text_trip _ 2 (by decide) (by decide) (by decide)).1
+/-- a document with a set in its metadata is not JSON-valued, and its view is not encodable -/
+example : ¬ JV (.word { w1 with h := { w1.h with md := [(.s "k", .obj "set")] } }) := by decide
+example : ((Doc.word { w1 with h := { w1.h with md := [(.s "k", .obj "set")] } }).toJson Key.i).encodable = false := by
+  decide
+
+/-! ## Closure: the builders and the constructors return well-formed documents
+
+`guardsCanon j`: no dict inside the JSON value `j` holds a falsy value other than `None` under
+`orientation`, `xheight` or `cornerpoints`.  Every JSON view the library produces is of this kind
+(the three attributes are written only when truthy).  A JSON value that is not — `"xheight": 0` —
+is accepted by the builders and yields a document holding `0`, which the library cannot tell from
+one holding `None` (it only tests truthiness; the harness compares up to that). -/
+
+/-- **C06_wf_closed.**  Every document `parse_pagexml_from_json` returns, for *any* JSON value it
+    accepts (whatever keys, types lists or strings, reading orders, nesting; guarded entries
+    canonical), is well-formed — hence covered by the round-trip theorems. -/
+theorem C06_wf_closed (fuel : Nat) (j : PyVal) (d' : Doc) (h : fromJson fuel j = .ok (some d'))
+    (hg : j.guardsCanon = true) : WF d' :=
+  (fromJson_closed fuel j d' h).1 hg
+
+/-- every document rebuilt from decoded JSON text is JSON-valued -/
+theorem C06_jv_closed (fuel : Nat) (j : PyVal) (d' : Doc) (h : fromJson fuel j = .ok (some d'))
+    (hs : j.stable = true) : JV d' :=
+  (fromJson_closed fuel j d' h).2 hs
+
+/-- rebuilding from an arbitrary accepted JSON value reaches a fixpoint at once: the rebuilt
+    document round-trips exactly (both entry points), whatever the JSON value looked like -/
+theorem C06_rebuilt_is_fixpoint (kf : Int → Key) (hk : ∀ i, keyInt (kf i) = .ok i) (fuel fuel' : Nat) (j : PyVal)
+    (d' : Doc) (h : fromJson fuel j = .ok (some d')) (hg : j.guardsCanon = true) (hf : d'.depth ≤ fuel') :
+    fromJson fuel' (d'.toJson kf) = .ok (some d') :=
+  C06_roundtrip kf hk d' fuel' hf (C06_wf_closed fuel j d' h hg)
+
+example : ((Doc.scan s1).toJson Key.i).guardsCanon = true := by decide
+example : ((Doc.scan s1).toJson strKey).stable = true := by decide
+example : WF (.scan s1) :=
+  C06_wf_closed 2 _ _ (C06_roundtrip_dict _ 2 (by decide) (by decide)) (by decide)
+/-- a JSON value no document view looks like (string `type`, no stats, string points, indexes out of
+    order, one region not listed): accepted, and what comes out is well-formed -/
+private def odd : PyVal :=
+  .dict [(.s "type", .list [.str "pagexml_doc", .str "text_region", .str "x"]), (.s "id", .int 7), (.s "metadata", .none),
+         (.s "coords", .str "1,2 3,4"), (.s "reading_order", .dict [(.s "5", .str "b"), (.s "2", .str "a")]),
+         (.s "text_regions", .list [
+            .dict [(.s "type", .str "pagexml_doc"), (.s "id", .str "b"), (.s "metadata", .dict [])],
+            .dict [(.s "type", .list []), (.s "id", .str "a"), (.s "metadata", .dict []), (.s "orientation", .num "90.0")]])]
+example : (match fromJson 3 odd with | .ok (some (.region _)) => true | _ => false) = true := by decide
+example : ∀ d, fromJson 3 odd = .ok (some d) → WF d ∧ JV d :=
+  fun d h => ⟨C06_wf_closed 3 odd d h (by decide), C06_jv_closed 3 odd d h (by decide)⟩
+
+/-- **C06_constructed_wf** (one theorem per constructor): a document built by a model constructor
+    from well-formed children (with whatever parents they had before) and canonical, non-empty
+    arguments is well-formed.  Words and lines: -/
+theorem C06_constructed_wf_word (id ty md text : PyVal) (coords : Option Pts) (conf : PyVal) (w : Word)
+    (h : mkWord id ty md text coords conf = .ok w) (hc : coords ≠ some []) : w.ok = true :=
+  mkWord_ok id ty md text coords conf w h hc
+
+theorem C06_constructed_wf_line (id ty md : PyVal) (coords baseline : Option Pts) (text conf : PyVal)
+    (words : List Word) (ro : RO) (roa xheight : PyVal) (l : Line)
+    (h : mkLine id ty md coords baseline text conf words ro roa xheight = .ok l)
+    (hc : coords ≠ some []) (hb : baseline ≠ some []) (hx : canon xheight = true)
+    (hro : (ro.map (·.1)).Nodup) (hw : ∀ w ∈ words, w.ok = true) : l.ok = true :=
+  mkLine_ok id ty md coords baseline text conf words ro roa xheight l h hc hb hx hro hw
+
+/-- table cells, rows (any number of column slots), tables (rows fresh: `preOk`), padding -/
+theorem C06_constructed_wf_table (id : PyVal) (ts : List String) (m : Meta) (coords : Option Pts) :
+    (∀ (row : PyVal) (col : Option Int) (cellSpan rowSpan header cornerpoints orientation : PyVal) (lines : List Line),
+      coords ≠ some [] → canon cornerpoints = true → canon orientation = true →
+      (∀ l ∈ lines, l.ok = true ∧ l.text.isSome = true) →
+      (Cell.build id ts m coords row col cellSpan rowSpan header cornerpoints orientation lines).ok = true)
+    ∧ (∀ (n : Nat) (orientation : PyVal) (cells : List Cell), coords ≠ some [] → canon orientation = true →
+        cells.isEmpty = false → sameRow cells = true → (∀ c ∈ cells, c.ok = true ∧ c.col.isSome = true) →
+        (Row.build id ts m coords n orientation cells).ok = true)
+    ∧ (∀ (orientation : PyVal) (rows : List Row), coords ≠ some [] → canon orientation = true →
+        (∀ r ∈ rows, r.ok = true ∧ r.numCols = colCellsN 0 r.cells) →
+        (Table.build id ts m coords orientation rows).preOk = true
+        ∧ (Table.build id ts m coords orientation rows).pad.ok = true) := by
+  refine ⟨fun row col cs rs hd cp o lines hc h1 h2 h3 => Cell.build_ok id ts m coords row col cs rs hd cp o lines hc h1 h2 h3,
+    fun n o cells hc h1 h2 h3 h4 => Row.build_ok id ts m coords n o cells hc h1 h2 h3 h4, ?_⟩
+  intro o rows hc h1 h2
+  have := Table.build_preOk id ts m coords o rows hc h1 h2
+  exact ⟨this, Table.pad_ok _ this⟩
+
+theorem C06_constructed_wf_region (id : PyVal) (ts : List String) (m : Meta) (coords : Option Pts) (text : Option String)
+    (orientation : PyVal) (ro : RO) (roa : PyVal) (lines : List Line) (regions : List Region) (tables : List Table)
+    (hc : coords ≠ some []) (hor : canon orientation = true) (hro : (ro.map (·.1)).Nodup)
+    (hl : ∀ l ∈ lines, l.ok = true) (hr : ∀ r ∈ regions, r.ok = true) (htb : ∀ t ∈ tables, t.preOk = true) :
+    (Region.build id ts m coords text orientation ro roa lines regions tables).ok = true :=
+  Region.build_ok id ts m coords text orientation ro roa lines regions tables hc hor hro hl hr htb
+
+theorem C06_constructed_wf_column (id : PyVal) (ts : List String) (m : Meta) (coords : Option Pts)
+    (orientation : PyVal) (ro : RO) (roa : PyVal) (lines : List Line) (regions : List Region) (tables : List Table)
+    (hc : coords ≠ some []) (hor : canon orientation = true) (hro : (ro.map (·.1)).Nodup)
+    (hl : ∀ l ∈ lines, l.ok = true) (hr : ∀ r ∈ regions, r.ok = true) (htb : ∀ t ∈ tables, t.preOk = true) :
+    (Column.build id ts m coords orientation ro roa lines regions tables).ok = true :=
+  Column.build_ok id ts m coords orientation ro roa lines regions tables hc hor hro hl hr htb
+
+theorem C06_constructed_wf_page (id : PyVal) (ts : List String) (m : Meta) (coords : Option Pts)
+    (orientation : PyVal) (ro : RO) (roa : PyVal) (columns : List Column) (regions : List Region)
+    (tables : List Table) (extra : List Region)
+    (hc : coords ≠ some []) (hor : canon orientation = true) (hro : (ro.map (·.1)).Nodup)
+    (hcs : ∀ c ∈ columns, c.ok = true) (hr : ∀ r ∈ regions, r.ok = true) (htb : ∀ t ∈ tables, t.preOk = true)
+    (hex : ∀ r ∈ extra, r.ok = true) :
+    (Page.build id ts m coords orientation ro roa columns regions tables extra).ok = true :=
+  Page.build_ok id ts m coords orientation ro roa columns regions tables extra hc hor hro hcs hr htb hex
+
+/-- the scan constructor (with `set_scan_id`), with and without the `set_parentage` that follows
+    it in the JSON builder -/
+theorem C06_constructed_wf_scan (id : PyVal) (ts : List String) (m : Meta) (coords : Option Pts)
+    (orientation : PyVal) (ro : RO) (roa : PyVal) (pages : List Page) (columns : List Column)
+    (lines : List Line) (regions : List Region) (tables : List Table)
+    (hc : coords ≠ some []) (hor : canon orientation = true) (hro : (ro.map (·.1)).Nodup)
+    (hps : ∀ p ∈ pages, p.ok = true) (hcs : ∀ c ∈ columns, c.ok = true)
+    (hl : ∀ l ∈ lines, l.ok = true) (hr : ∀ r ∈ regions, r.ok = true) (htb : ∀ t ∈ tables, t.preOk = true) :
+    WF (.scan (Scan.ctor id ts m coords orientation ro roa pages columns lines regions tables))
+    ∧ WF (.scan (Scan.build id ts m coords orientation ro roa pages columns lines regions tables)) :=
+  ⟨Scan.ctor_ok id ts m coords orientation ro roa pages columns lines regions tables hc hor hro hps hcs hl hr htb,
+   Scan.build_ok id ts m coords orientation ro roa pages columns lines regions tables hc hor hro hps hcs hl hr htb⟩
+
+/-- children with foreign parents, regions out of reading order, an unlisted-free reading order:
+    the constructors re-parent, sort and pad -/
+example : WF (.scan (Scan.build (.str "S") ["extra"] [] none .none [(3, .str "r0"), (1, .str "r1")] .none [] []
+    [l2] [r0, r1] [t1.base])) :=
+  (C06_constructed_wf_scan _ _ _ _ _ _ _ _ _ _ _ _ (by decide) (by decide) (by decide) (by decide) (by decide)
+    (by decide) (by decide) (by decide)).2
+example : (Scan.build (.str "S") ["extra"] [] none .none [(3, .str "r0"), (1, .str "r1")] .none [] []
+    [l2] [r0, r1] [t1.base]).regions.map rid = [.str "r1", .str "r0"] := by decide
+example : (Region.build (.str "R") [] [] none (some "t") .none [] .none [l1, l2] [r2] []).ok = true :=
+  C06_constructed_wf_region _ _ _ _ _ _ _ _ _ _ _ (by decide) (by decide) (by decide) (by decide) (by decide) (by decide)
+example : (Column.build (.str "C") [] [] none .none [] .none [l1] [r0] []).ok = true :=
+  C06_constructed_wf_column _ _ _ _ _ _ _ _ _ _ (by decide) (by decide) (by decide) (by decide) (by decide) (by decide)
+example : (Page.build (.str "P") [] [] none .none [] .none [] [r1] [] [r0]).ok = true :=
+  C06_constructed_wf_page _ _ _ _ _ _ _ _ _ _ _ (by decide) (by decide) (by decide) (by decide) (by decide) (by decide)
+    (by decide)
+example : ∃ w, mkWord (.str "w") (.str "tag") .none (.str "x") (some (P 0 0)) .none = .ok w ∧ w.ok = true :=
+  ⟨_, rfl, C06_constructed_wf_word (.str "w") (.str "tag") .none (.str "x") (some (P 0 0)) .none _ rfl (by decide)⟩
+example : ∃ l, mkLine (.str "l") (.list []) .none none none .none .none [w1] [] .none .none = .ok l ∧ l.ok = true :=
+  ⟨_, rfl, C06_constructed_wf_line (.str "l") (.list []) .none none none .none .none [w1] [] .none .none _ rfl
+    (by decide) (by decide) (by decide) (by decide) (by decide)⟩
+example : (Table.build (.str "T") [] [] none .none [(t1.rows.map Row.base).head!]).pad.ok = true :=
+  ((C06_constructed_wf_table (.str "T") [] [] none).2.2 .none _ (by decide) (by decide) (by decide)).2
+
+/-- **C06_parsed_wf.**  The scan the XML parser assembles — words, lines (with
+    `metadata['type'] = 'line'`), text regions of any nesting built empty and then given their lines
+    and sub-regions with `set_as_parent`, `add_type(metadata['type'])`, the scan constructor with its
+    reading order, `set_scan_id` — is well-formed, for all raw trees whose coordinates / baselines
+    are non-empty where present (tables: with rows as their constructors left them). -/
+theorem C06_parsed_wf (id : PyVal) (m : Meta) (coords : Option Pts) (ro : RO) (roa : PyVal)
+    (regions : List Region) (tables : List Table) (hc : coords ≠ some []) (hro : (ro.map (·.1)).Nodup)
+    (hr : Region.rawOkL regions = true) (htb : ∀ t ∈ tables, t.preOk = true) :
+    WF (.scan (Scan.parsed id m coords ro roa regions tables)) :=
+  Scan.parsed_ok id m coords ro roa regions tables hc hro hr htb
+
+/-- raw trees carry no types, parents or scan ids: the assembly puts them there -/
+private def rawW : Word := { h := ⟨.str "w", [], [], some (P 0 0)⟩, text := some "a", conf := .none }
+private def rawL : Line :=
+  { h := ⟨.str "l", [], [(.s "custom_attributes", .list [])], some (P 0 0)⟩, baseline := some (P 0 3), text := some "a",
+    conf := .none, xheight := .int 9, ro := [], roa := .none, words := [rawW] }
+private def rawR2 : Region := ⟨⟨.str "b", [], [(.s "type", .str "paragraph")], some (P 0 0)⟩, none, .none, [], .none, [rawL], [], []⟩
+private def rawR1 : Region := ⟨⟨.str "a", [], [], none⟩, none, .num "90.0", [], .none, [], [rawR2], []⟩
+example : WF (.scan (Scan.parsed (.str "f.jpg") [(.s "scan_width", .int 10)] (some (P 0 0)) [(1, .str "a")] (.dict [])
+    [rawR1] [])) :=
+  C06_parsed_wf _ _ _ _ _ _ _ (by decide) (by decide) (by decide) (by decide)
+example : ((Scan.parsed (.str "f.jpg") [] none [] .none [rawR1] []).regions.map (fun r => r.regions.map (fun q => q.h.types)))
+    = [[baseTypes "text_region" ++ ["paragraph"]]] := by decide
 
 end Pagexml.C06
